@@ -414,7 +414,7 @@ func VerifH_manager_step_add() {
 	m := arbitraryManager(n)
 	before := snapshot(m)
 	verifrt.UnwindAssume(3)
-	pt := [...]tinkpb.OutputPrefixType{tinkpb.OutputPrefixType_UNKNOWN_PREFIX, tinkpb.OutputPrefixType_TINK, tinkpb.OutputPrefixType_LEGACY, tinkpb.OutputPrefixType_RAW, tinkpb.OutputPrefixType_CRUNCHY}[verifrt.Choice("prefix", 5)]
+	pt := [...]tinkpb.OutputPrefixType{tinkpb.OutputPrefixType_UNKNOWN_PREFIX, tinkpb.OutputPrefixType_TINK, tinkpb.OutputPrefixType_LEGACY, tinkpb.OutputPrefixType_RAW, tinkpb.OutputPrefixType_CRUNCHY, tinkpb.OutputPrefixType_WITH_ID_REQUIREMENT}[verifrt.Choice("prefix", 6)]
 	newPath := verifrt.Choice("registry", 2) == 0
 	var createdReq uint32
 	created := 0
@@ -456,7 +456,7 @@ func VerifH_manager_step_add() {
 	if pt == tinkpb.OutputPrefixType_RAW {
 		verifrt.Assert(createdReq == 0, "RAW: the key is created without an ID requirement")
 	} else {
-		verifrt.Assert(createdReq == id, "TINK / LEGACY / CRUNCHY: the key is created with ID requirement == the entry's id")
+		verifrt.Assert(createdReq == id, "TINK / LEGACY / CRUNCHY / WITH_ID_REQUIREMENT (every prefix type but RAW): the key is created with ID requirement == the entry's id")
 	}
 	idr, req := last.key.IDRequirement()
 	verifrt.Assert(verifrt.Implies(req, idr == id), "a key with an ID requirement carries the entry's id")
